@@ -103,7 +103,8 @@ func genSvcs(r *wire.Rng, nss []string, hosts []string, n int, aliases bool) []s
 	k8sHost := map[string]bool{}
 	for i := 0; i < n; i++ {
 		s := svcSpec{id: fmt.Sprintf("s%d", i), hostname: wire.Pick(r, hosts), ns: wire.Pick(r, nss)}
-		s.k8s = r.Chance(1, 3) && !k8sHost[s.hostname]
+		// mostly one Kubernetes service per hostname (a Kubernetes hostname names its namespace), sometimes several
+		s.k8s = r.Chance(1, 3) && (!k8sHost[s.hostname] || r.Chance(1, 8))
 		if s.k8s {
 			k8sHost[s.hostname] = true
 		}
@@ -119,7 +120,13 @@ func genSvcs(r *wire.Rng, nss []string, hosts []string, n int, aliases bool) []s
 				continue
 			}
 			used[p] = true
-			s.ports = append(s.ports, portSpec{p, fmt.Sprintf("p%d", p)})
+			// the port name carries the protocol: p<n> = HTTP, tcp-<n> = TCP (fixed per port number so
+			// that services sharing a hostname agree on it)
+			if p == 9090 {
+				s.ports = append(s.ports, portSpec{p, fmt.Sprintf("tcp-%d", p)})
+			} else {
+				s.ports = append(s.ports, portSpec{p, fmt.Sprintf("p%d", p)})
+			}
 		}
 		s.exportTo = genExport(r, nss, s.ns, true)
 		s.vis = "p"
@@ -201,12 +208,12 @@ func genVS(r *wire.Rng, nss, hosts []string, i int) vsSpec {
 		for j := r.Intn(5) - 2; j > 0; j-- {
 			h.srcNs = append(h.srcNs, wire.Pick(r, append([]string{""}, nss...)))
 		}
-		for j := 1 + r.Intn(2); j > 0; j-- {
+		for j := 1 + r.Intn(3); j > 0; j-- {
 			h.dests = append(h.dests, genDest(r, hosts))
 		}
 		v.http = append(v.http, h)
 	}
-	if r.Chance(1, 4) {
+	for j := r.Intn(4) - 1; j > 0; j-- {
 		v.tcp = append(v.tcp, genDest(r, hosts))
 	}
 	return v
@@ -222,7 +229,15 @@ func genDR(r *wire.Rng, nss, hosts []string, i int) drSpec {
 		d.host = wire.Pick(r, drHostPool)
 	}
 	d.exportTo = genExport(r, nss, d.ns, false)
-	d.selector = r.Chance(1, 7)
+	if r.Chance(1, 5) {
+		d.selector = map[string]string{"app": wire.Pick(r, []string{"a", "b"})}
+	}
+	// one subset named after the rule, sometimes a name shared with other rules (duplicate subsets
+	// are dropped when rules are consolidated)
+	d.subsets = []string{"s-" + d.name}
+	if r.Chance(1, 4) {
+		d.subsets = append(d.subsets, "shared")
+	}
 	return d
 }
 
@@ -342,11 +357,15 @@ func genScope(seed uint64, ncases int, out string) {
 		if r.Chance(1, 2) {
 			o.Line("gw", wire.Enc(wire.Pick(r, nss)))
 		}
-		// the generated xDS of one sidecar proxy of the mesh
+		// the generated xDS of one sidecar proxy of the mesh (CDS, EDS for every hostname of the mesh)
+		// and the CDS of a router
 		lbl := "-"
 		if r.Chance(1, 3) {
 			lbl = "app=" + wire.Pick(r, []string{"a", "b"})
 		}
-		o.Line("xds", wire.Enc(wire.Pick(r, nss)), lbl)
+		xns := wire.Pick(r, nss)
+		o.Line("xds", wire.Enc(xns), lbl)
+		o.Line("eds", wire.Enc(xns), lbl)
+		o.Line("xdsgw", wire.Enc(wire.Pick(r, nss)))
 	}
 }
